@@ -14,7 +14,11 @@
 (* Variant types:                                                          *)
 (*   [k |-> "obj", f |-> <<ma, mb, mc>>, of |-> "-"]  object over the      *)
 (*        string fields a, b, c; each field abs(ent) / opt(ional) / req /  *)
-(*        rnul = required AND nullable (the payload may carry null)        *)
+(*        rnul = required AND nullable (the payload may carry null);       *)
+(*        a property may also carry schema annotations that change what    *)
+(*        the emitted field ACCEPTS: reqdef / optdef (declared `default`   *)
+(*        on a required / optional property), reqenum (inline enum),       *)
+(*        reqdate (format: date)                                           *)
 (*   [k |-> "str"|"int"|"float"|"bool", f |-> <<>>, of |-> "-"]            *)
 (*   [k |-> "list"|"map", f |-> <<>>, of |-> "str"|"int"]                  *)
 (*   [k |-> "anymap", ...]     dict[str, Any] (what the generator emits    *)
@@ -74,10 +78,23 @@ ListOf(e) == [k |-> "list", f |-> <<>>, of |-> e]
 MapOf(e)  == [k |-> "map", f |-> <<>>, of |-> e]
 AnyMap    == [k |-> "anymap", f |-> <<>>, of |-> "-"]
 
+\* property modes: what the SCHEMA says (the reference reads conformance off these, never off emitted code)
+ReqModes  == {"req", "rnul", "reqdef", "reqenum", "reqdate"}     \* listed in `required` - a default does not change that
+OptModes  == {"opt", "optdef"}
+DefModes  == {"reqdef", "optdef"}                                \* carry `default: "d<key>"`
+DefVal(k)  == "d" \o k
+EnumVal(k) == "v" \o k                                          \* reqenum: `enum: ["v<key>"]`
+Dates      == {"2020-01-02"}                                     \* reqdate: `format: date`
 WithMode(T, m) == {FieldNames[i] : i \in {j \in 1..3 : T.f[j] = m}}
+WithModes(T, M) == {FieldNames[i] : i \in {j \in 1..3 : T.f[j] \in M}}
 Extra(dp)      == IF dp = "-" THEN {} ELSE {dp}
-Required(T, dp) == WithMode(T, "req") \cup WithMode(T, "rnul") \cup Extra(dp)
-Declared(T, dp) == Required(T, dp) \cup WithMode(T, "opt")
+Required(T, dp) == WithModes(T, ReqModes) \cup Extra(dp)
+Declared(T, dp) == Required(T, dp) \cup WithModes(T, OptModes)
+\* does a (non-null) value conform to the property's schema?
+ValueOk(m, k, x) ==
+  CASE m = "reqenum" -> x.t = "s" /\ x.v = EnumVal(k)
+    [] m = "reqdate" -> x.t = "s" /\ x.v \in Dates
+    [] OTHER -> x.t = "s"
 ModeOf(T, k)    == IF \E i \in 1..3 : FieldNames[i] = k THEN T.f[CHOOSE i \in 1..3 : FieldNames[i] = k] ELSE "req"
 
 DiscProp(u) == IF u.disc.mode = "none" THEN "-" ELSE u.disc.prop
@@ -98,7 +115,7 @@ RefDecode(p, T, dp) ==
          IF /\ p.t = "o"
             /\ Required(T, dp) \subseteq Keys(p)
             /\ \A k \in Keys(p) \cap Declared(T, dp) :
-                  Get(p, k).t = "s" \/ (Get(p, k).t = "null" /\ ModeOf(T, k) = "rnul")
+                  ValueOk(ModeOf(T, k), k, Get(p, k)) \/ (Get(p, k).t = "null" /\ ModeOf(T, k) = "rnul")
          THEN Ok(ObjRestrict(p, Declared(T, dp))) ELSE Fail
     [] T.k = "str"   -> IF p.t = "s" THEN Ok(p) ELSE Fail
     [] T.k = "bool"  -> IF p.t = "b" THEN Ok(p) ELSE Fail
@@ -165,10 +182,19 @@ ImplDecode(p, T, dp) ==
   CASE T.k = "obj" ->
          \* make_dict_structure_fn: required keys must be present (null counts as present), unknown keys are ignored,
          \* str(x) per `str` field, `str | None` fields (optional / required-nullable) keep null
-         IF p.t = "o" /\ Required(T, dp) \subseteq Keys(p)
-         THEN LET r == ObjRestrict(p, Declared(T, dp))
-              IN Ok(O([i \in 1..Len(r.v) |->
-                        KV(r.v[i].k, IF r.v[i].v.t = "null" /\ ModeOf(T, r.v[i].k) # "req" THEN Null ELSE PyStr(r.v[i].v))]))
+         \* what the emitted field makes of the annotations: a default on a REQUIRED property is not a field default
+         \* (the key stays mandatory), a default on an optional property fills the absent key, an inline enum is an Enum
+         \* class and format: date a datetime.date - both reject other values, which is what first-match tests
+         IF /\ p.t = "o" /\ Required(T, dp) \subseteq Keys(p)
+            /\ \A k \in Keys(p) \cap Declared(T, dp) :
+                  ModeOf(T, k) \in {"reqenum", "reqdate"} => ValueOk(ModeOf(T, k), k, Get(p, k))
+         THEN LET val(k) == IF k \in Keys(p)
+                              THEN (IF Get(p, k).t = "null" /\ ModeOf(T, k) \notin {"req", "reqdef"} THEN Null ELSE PyStr(Get(p, k)))
+                              ELSE S(DefVal(k))
+                  has(k) == k \in Declared(T, dp) /\ (k \in Keys(p) \/ ModeOf(T, k) = "optdef")
+                  flds == SelectSeq(FieldNames, has)
+              IN Ok(O([i \in 1..Len(flds) |-> KV(flds[i], val(flds[i]))]
+                      \o (IF dp # "-" /\ dp \in Keys(p) THEN <<KV(dp, PyStr(Get(p, dp)))>> ELSE <<>>)))
          ELSE Fail
     [] T.k \in {"str", "int", "float", "bool"} -> ImplPrim(p, T.k)
     [] T.k = "list" ->
@@ -233,6 +259,17 @@ ChosenIdx(u, o) ==
   ELSE LET hits == {i \in 1..Len(u.vars) : KindMatches(o.ckind, u.vars[i])}
        IN IF hits = {} THEN -1 ELSE MinOf(hits)
 
+\* Lossless(re-encoding x, payload y) for union u: Eq, plus the tolerance that a key the payload lacks may come back
+\* with the declared default of an OPTIONAL property of some variant (default filling adds, it never discards).
+DefaultKeys(u) == UNION {WithMode(u.vars[i], "optdef") : i \in {j \in 1..Len(u.vars) : u.vars[j].k = "obj"}}
+EqU(x, y, u) ==
+  IF x.t = "o" /\ y.t = "o"
+    THEN /\ \A k \in Keys(y) : k \in Keys(x) /\ Eq(Get(x, k), Get(y, k))
+         /\ \A k \in Keys(x) \ Keys(y) :
+               \/ Get(x, k).t = "null"
+               \/ (k \in DefaultKeys(u) /\ Get(x, k).t = "s" /\ Get(x, k).v = DefVal(k))
+    ELSE Eq(x, y)
+
 \* e is ChooseVariant(p, u) (passed in so that callers evaluate it once per payload)
 \* C14.not_a_variant: whatever the payload, a successful decode is a value of one of the union's variants (or null
 \* for a nullable union) - never a raw container that belongs to no variant ("decoded as the right variant").
@@ -245,7 +282,7 @@ JudgeE(p, u, o, e) ==
          IF o.out = "err" THEN "C14.error_on_conforming"
          ELSE IF u.disc.mode # "none" /\ p.t # "null" /\ ChosenIdx(u, o) \notin e.set THEN "C14.wrong_variant_with_discriminator"
          ELSE IF ChosenIdx(u, o) = -1 THEN "C14.not_a_variant"
-         ELSE IF e.lossless /\ ~Eq(o.reenc, p) THEN "C14.lossy"
+         ELSE IF e.lossless /\ ~EqU(o.reenc, p, u) THEN "C14.lossy"
          ELSE "ok"
 Judge(p, u, o) == JudgeE(p, u, o, ChooseVariant(p, u))
 
@@ -271,6 +308,12 @@ LocusE(p, u, o, e) ==
       true_kind   |-> IF t >= 1 THEN u.vars[t].k ELSE IF e.exp = "value" THEN "null" ELSE "-",
       payload     |-> p.t,
       relation    |-> IF o.out = "err" THEN "-" ELSE Relation(u, c, t),
+      \* does the payload at least conform (open world: extra keys allowed) to the variant that was produced?
+      \* ("required_missing": a key the produced variant's schema lists as required is absent - default or not)
+      chosen_accepts |-> IF o.out = "err" \/ c < 1 THEN "-"
+                         ELSE IF RefDecode(p, u.vars[c], DiscProp(u)).ok THEN "conforming"
+                         ELSE IF u.vars[c].k = "obj" /\ p.t = "o" /\ ~(Required(u.vars[c], DiscProp(u)) \subseteq Keys(p)) THEN "required_missing"
+                         ELSE "value_mismatch",
       order       |-> IF o.out = "err" \/ c < 1 \/ t < 1 THEN "-"
                       ELSE IF c < t THEN "chosen_before_true" ELSE IF c > t THEN "chosen_after_true" ELSE "same",
       disc        |-> u.disc.mode,
